@@ -425,6 +425,10 @@ class SchedRLock:
         return True
 
     def release(self):
+        if self.count <= 0:
+            run = getattr(_tls, "run", None)
+            if run is not None and run.aborting:
+                return               # unwinding a wait that was torn down: nothing is held
         self.count -= 1
         if self.count == 0:
             self.owner = None
